@@ -8,8 +8,9 @@
    ReadTx(k) returns: the record found THROUGH the commit-log entry (offset, size) in the tx log.
    H is ANY hash function; no collision assumption is used. The premise 0 < c_maxactive is
    Options.Validate (MaxActiveTransactions > 0). *)
-(* The refutations of the three full statements that the code as it stands violates are in
-   coq/Hist/Refuted.v (blroot_refuted_witness, reopen_refuted_witness, ack_refuted_witness): witness
+(* The refutations of the two full statements that the code as it stands violates are in
+   coq/Hist/Refuted.v (reopen_refuted_witness, ack_refuted_witness; blroot_fixed_witness is the
+   regression witness of the BlRoot defect fixed by 2077e08): witness
    executions evaluated with the executable SHA-256 (Coq's primitive 63-bit integers, hence not listed
    here where every theorem must be closed under the global context), replayed on the real store by
    the directed scripts of harness/c02 on every run (known findings). *)
@@ -40,9 +41,8 @@ Print Assumptions C02_history_prefix_monotone.
 
 (* Chain: the committed record k links to its predecessor (PrevAlh_k = stored Alh_{k-1}; the hash of
    the empty string for k = 1), BlTxID_k < k, and its stored Alh is the hash of its own header.
-   FULL statement (... and BlRoot_k = Merkle root over Alh_1..Alh_BlTxID_k) is REFUTED on the code as it
-   stands, see Hist/Refuted.v blroot_refuted_witness; this is the _partial form valid for ALL executions. *)
-Theorem C02_alh_chain_partial :
+   The BlRoot clause is C02_blroot below; this part holds for ALL executions without any premise. *)
+Theorem C02_alh_chain :
   forall (H : bytes -> bytes) (c : cfg) (ops : list op) (k : N) (r : rec), 0 < c_maxactive c ->
   let s := run H (init H c) ops in
   1 <= k -> k <= s_committed s -> read_tx s k = Ok r ->
@@ -51,22 +51,26 @@ Theorem C02_alh_chain_partial :
   h_bltxid (r_hdr r) < k /\
   alh_of H (r_hdr r) = Ok (r_alh r).
 Proof. exact alh_chain_links. Qed.
-Print Assumptions C02_alh_chain_partial.
+Print Assumptions C02_alh_chain.
 
 
-(* BlRoot clause of the chain, _partial form: in every execution WITHOUT a close/reopen (any
-   interleaving of commits, failed precommits, discards, allowance changes), a committed record with
-   BlTxID > 0 embeds the Merkle root (RFC 6962 shape, leaf = H(0x00|x), node = H(0x01|l|r): Merkle/Ref.v)
-   over the stored Alh values of transactions 1..BlTxID as a reader gets them. `alhs s n` is that list.
-   (With a reopen in between the statement is false on the code as it stands: blroot_refuted_witness.) *)
-Theorem C02_blroot_partial :
+(* BlRoot clause of the chain, incl. close/reopen cycles (OpenWith as fixed by 2077e08: the
+   binary-linking tree is reset to the committed transactions and rebuilt from the reloaded ones):
+   a committed record with BlTxID > 0 embeds the Merkle root (RFC 6962 shape: Merkle/Ref.v) over the
+   stored Alh values of transactions 1..BlTxID as a reader gets them (`alhs s n`), or a collision of H
+   is exhibited (a record reloaded from the tx log at reopen is tied to its ancestry only through the
+   PrevAlh hash chain). H has 32-byte outputs. Premise `reopens_clean`: at every OReopen of the run the
+   commit log holds no entry beyond the committed id, i.e. the run does not go through the known
+   finding "reopen commits more" (a commit loop that stopped midway followed by close/reopen); without
+   it the reopened store counts entries whose tree leaves were never checked against them. *)
+Theorem C02_blroot :
   forall (H : bytes -> bytes) (c : cfg) (ops : list op) (k : N) (r : rec),
-  0 < c_maxactive c -> existsb is_reopen ops = false ->
+  (forall x, length (H x) = 32%nat) -> 0 < c_maxactive c -> reopens_clean H (init H c) ops ->
   let s := run H (init H c) ops in
   1 <= k -> k <= s_committed s -> read_tx s k = Ok r -> 0 < h_bltxid (r_hdr r) ->
-  h_blroot (r_hdr r) = mth H (alhs s (h_bltxid (r_hdr r))).
-Proof. exact blroot_partial. Qed.
-Print Assumptions C02_blroot_partial.
+  h_blroot (r_hdr r) = mth H (alhs s (h_bltxid (r_hdr r))) \/ Collision H.
+Proof. exact blroot. Qed.
+Print Assumptions C02_blroot.
 
 (* "Reported committed" from the caller's side, _partial form: in every execution WITHOUT
    DiscardPrecommittedTxsSince, each commit call that has returned success (acked s: its id and the Alh
